@@ -14,8 +14,8 @@ import GB.Base.Bytes
   verbatim (bridgedesc.DummyMethod); the harness uses exactly that type (valid wire payloads) and a raw
   legacy-codec type (arbitrary payloads).
 
-  The model is of the code AFTER the two `fix:` commits of this slice (oversize rejected, empty WebSocket
-  message delivered, WebSocket framing errors delivered); `recvPreFixL` / `onMessagePreFix` keep the old
+  The model is of the code AFTER the three `fix:` commits of this slice (oversize rejected; empty WebSocket
+  message and WebSocket framing errors delivered; nothing accepted after a rejected header message); `recvPreFixL` / `onMessagePreFix` keep the old
   behaviour for the kernel-checked negative witnesses.
 -/
 namespace GB.C08
@@ -226,7 +226,8 @@ deriving DecidableEq, Repr
 def onMessage (mdOk : Bytes → Bool) (st : WS) (data : Bytes) : WS × List WSEv :=
   if st.closed then (st, [])                                   -- ignored after the finish marker
   else if !st.receivedMD then
-    if mdOk data then ({ st with receivedMD := true }, [.md data]) else (st, [.badMD])
+    if mdOk data then ({ st with receivedMD := true }, [.md data])
+    else ({ st with closed := true }, [.badMD])                -- fix D8b: nothing after a rejected header counts
   else
     -- flow control byte
     let closed : Bool := match data with | [] => false | b :: _ => b == 1
@@ -239,7 +240,8 @@ def onMessage (mdOk : Bytes → Bool) (st : WS) (data : Bytes) : WS × List WSEv
         | none => []                                           -- a bare flow-control byte
     ({ st with closed := closed }, evs ++ (if closed then [.eof] else []))
 
-/-- the code before fix D8: `len(data) > 6`, and an event carrying only an error is never sent -/
+/-- the code before fixes D8/D8b: `len(data) > 6`, an event carrying only an error is never sent, and a
+    rejected header message leaves the stream open for the next message to be taken as the header -/
 def onMessagePreFix (mdOk : Bytes → Bool) (st : WS) (data : Bytes) : WS × List WSEv :=
   if st.closed then (st, [])
   else if !st.receivedMD then
@@ -249,12 +251,11 @@ def onMessagePreFix (mdOk : Bytes → Bool) (st : WS) (data : Bytes) : WS × Lis
     let evs : List WSEv := if wsOff < data.length then [.msg (data.drop wsOff)] else []
     ({ st with closed := closed }, evs ++ (if closed then [.eof] else []))
 
-/-- all events of a sequence of client messages; after a bad header the connection is closed by the server -/
+/-- all events of a sequence of client messages dispatched to OnMessage (gws keeps dispatching what it has
+    already buffered even after the server side closed the socket) -/
 def wsEventsWith (om : WS → Bytes → WS × List WSEv) : WS → List Bytes → List WSEv
   | _, [] => []
-  | st, d :: ds =>
-    let r := om st d
-    if r.2 = [.badMD] then [.badMD] else r.2 ++ wsEventsWith om r.1 ds
+  | st, d :: ds => (om st d).2 ++ wsEventsWith om (om st d).1 ds
 
 def wsEvents (mdOk : Bytes → Bool) : WS → List Bytes → List WSEv := wsEventsWith (onMessage mdOk)
 
